@@ -389,9 +389,14 @@ fn known_match<'a>(known: &'a [Known], prop: &str, v: &Violation) -> Option<&'a 
 // ------------------------------------------------------------------------------------------------
 // worker result files
 
+/// name of a build variant of the engine (e.g. `avx512`): separate run dir, evidence file and replay prefix
+pub fn variant() -> Option<String> {
+    std::env::var("ZVERIF_VARIANT").ok().filter(|s| !s.is_empty())
+}
+
 fn run_dir(prop: &str, tier: Tier) -> PathBuf {
     let base = std::env::var("ZVERIF_RUN_DIR").unwrap_or_else(|_| format!("{VERIF_ROOT}/target/run"));
-    Path::new(&base).join(format!("{prop}-{}", tier.name()))
+    Path::new(&base).join(format!("{prop}-{}{}", tier.name(), variant().map_or(String::new(), |v| format!("-{v}"))))
 }
 
 fn write_set(f: &mut impl Write, name: &str, s: &HashSet<u64>) {
@@ -753,7 +758,7 @@ pub fn run_parent(info: &CheckInfo, tier: Tier, extra_cov: Option<Value>) -> i32
     // replay files describe this run only
     if let Ok(rd) = std::fs::read_dir(&rdir) {
         for e in rd.flatten() {
-            if e.file_name().to_string_lossy().starts_with(tier.name()) {
+            if e.file_name().to_string_lossy().starts_with(&format!("{}{}", variant().map_or(String::new(), |v| format!("{v}-")), tier.name())) {
                 let _ = std::fs::remove_file(e.path());
             }
         }
@@ -763,7 +768,7 @@ pub fn run_parent(info: &CheckInfo, tier: Tier, extra_cov: Option<Value>) -> i32
         std::fs::create_dir_all(&rdir).unwrap();
     }
     for v in new_violations.iter().take(std::env::var("ZVERIF_MAX_REPLAYS").ok().and_then(|s| s.parse().ok()).unwrap_or(20)) {
-        let p = rdir.join(format!("{}-{}.json", tier.name(), v.idx));
+        let p = rdir.join(format!("{}{}-{}.json", variant().map_or(String::new(), |v| format!("{v}-")), tier.name(), v.idx));
         let j = json!({
             "property": prop, "tier": tier.name(), "family": v.family, "index": v.idx,
             "case": v.desc, "observed": v.msg,
@@ -825,7 +830,11 @@ pub fn run_parent(info: &CheckInfo, tier: Tier, extra_cov: Option<Value>) -> i32
     });
     let edir = Path::new(VERIF_ROOT).join("evidence");
     std::fs::create_dir_all(&edir).unwrap();
-    std::fs::write(edir.join(format!("{prop}.json")), serde_json::to_string_pretty(&ev).unwrap() + "\n").unwrap();
+    let ev_name = match variant() {
+        Some(v) => format!("{prop}.{v}.json"),
+        None => format!("{prop}.json"),
+    };
+    std::fs::write(edir.join(ev_name), serde_json::to_string_pretty(&ev).unwrap() + "\n").unwrap();
     println!(
         "{prop} {}: cases={} execs={} outcomes={} states={} transitions={} validated={} violations={} known={} wall={:.1}s",
         tier.name(),
